@@ -26,7 +26,7 @@ def sh(cmd, cwd=None, env=None, timeout=3600):
 
 def run_demo(wt, demo, rebuild):
     if rebuild:
-        rc, out, err = sh("/venv/bin/python /opt/cpbuild/build_into.py %s" % wt)
+        rc, out, err = sh("/venv/bin/python %s %s" % (os.path.join(VERIF, "tools", "build_into.py"), wt))
         if rc != 0:
             return None, "build failed: " + err[-500:]
     env = dict(os.environ, PYTHONPATH=wt, OMP_NUM_THREADS="4")
